@@ -1,8 +1,161 @@
 import Got.Drv.Common
-/- driver for the bytes model family (properties C13): to be written -/
+import Got.Model.BytesBuffer
+import Got.Model.BytesStream
+/-
+drv_bytes: one script line = one op sequence on a fresh object
+
+  buffer | write <payload> ; read <k> ; next <n> ; seek <off> <whence> ; tidy ; reset ; grow <n>
+  stream | write <payload> ; wbyte <b> ; wbool <0|1> ; wi16 <d> ; wi32 <d> ; wi64 <d> ; read <k> ; rbyte ;
+           tidy ; reset ; seek <off> <whence>
+
+  <payload> = hex string | `-` (empty) | `#<n>:<s>` (n bytes, byte j = (s+j) mod 256)
+
+output: per-op observations joined by ` ; `
+  buffer:  <result> / <Bytes> <Len> <String> <Seek(0,Current)> <Cap>
+  stream:  <result> / <Bytes> <Len> <Position>
+  byte strings longer than 16 bytes are rendered as `<len>:<crc32>`
+-/
 namespace Got.Drv.Bytes
+open Got.Model.Bytes Got.Drv
+
+/-- CRC-32 (IEEE), bitwise -/
+def crcByte (crc : UInt32) (b : Nat) : UInt32 :=
+  let c := crc ^^^ (UInt32.ofNat (b % 256))
+  let rec go : Nat → UInt32 → UInt32
+    | 0, c => c
+    | k + 1, c => go k (if c &&& 1 = 1 then (c >>> 1) ^^^ 0xEDB88320 else c >>> 1)
+  go 8 c
+
+def crc32 (bs : List Nat) : UInt32 := (bs.foldl crcByte 0xFFFFFFFF) ^^^ 0xFFFFFFFF
+
+def hex8 (x : UInt32) : String :=
+  let n := x.toNat
+  String.ofList ((List.range 8).map (fun i => hexChar (n / 16 ^ (7 - i) % 16)))
+
+/-- byte string rendering: hex up to 16 bytes, else length and CRC-32 -/
+def rd (bs : List Nat) : String :=
+  if bs.length ≤ 16 then toHex bs else s!"{bs.length}:{hex8 (crc32 bs)}"
+
+def rdOpt : Option (List Nat) → String
+  | some bs => rd bs
+  | none => "panic"
+
+def parsePayload? (s : String) : Option (List Nat) :=
+  if s.startsWith "#" then
+    match (s.drop 1).toString.splitOn ":" with
+    | [n, st] =>
+      match n.toNat?, st.toNat? with
+      | some n, some st => some ((List.range n).map (fun j => (st + j) % 256))
+      | _, _ => none
+    | _ => none
+  else parseHex? s
+
+/- ---------------- Buffer ---------------- -/
+
+def bErr : Buffer.Err → String
+  | .nil => "nil" | .eof => "eof" | .invalidSeek => "bad"
+
+def bOut (op : String) : Buffer.Out → String
+  | .wrote n => s!"w {n}"
+  | .read d e => s!"r {rd d} {bErr e}"
+  | .next d => s!"x {rd d}"
+  | .seek r e => s!"s {r} {bErr e}"
+  | .unit => op
+  | .panic _ => "panic"
+
+def bParse (ws : List String) : Option (Buffer.Op × String) :=
+  match ws with
+  | ["write", p] => (parsePayload? p).map (fun p => (.write p, "w"))
+  | ["read", k] => (parseNat? k).map (fun k => (.read k, "r"))
+  | ["next", n] => (parseInt? n).map (fun n => (.next n, "x"))
+  | ["seek", o, w] =>
+    match parseInt? o, parseInt? w with
+    | some o, some w => some (.seek o w, "s")
+    | _, _ => none
+  | ["tidy"] => some (.tidy, "t")
+  | ["reset"] => some (.reset, "z")
+  | ["grow", n] => (parseInt? n).map (fun n => (.grow n, "g"))
+  | _ => none
+
+def bObserve (b : Buffer) : Buffer × String :=
+  -- Seek(0, io.SeekCurrent) is itself a (state-preserving) call of the model
+  let r := b.seek 0 1
+  let pos := match r.2 with
+    | .seek ret .nil => toString ret
+    | _ => "bad"
+  (r.1, joinSp [rdOpt b.bytes?, toString b.len, rdOpt b.string?, pos, toString b.capacity])
+
+def bRun (ops : List String) : String :=
+  let rec go (b : Buffer) : List String → List String → List String
+    | [], acc => acc.reverse
+    | o :: rest, acc =>
+      match bParse (words o) with
+      | none => (("bad-op") :: acc).reverse
+      | some (op, tag) =>
+        let r := b.step op
+        let ob := bObserve r.1
+        go ob.1 rest ((bOut tag r.2 ++ " / " ++ ob.2) :: acc)
+  " ; ".intercalate (go Buffer.init ops [])
+
+/- ---------------- Stream ---------------- -/
+
+def sErr : Stream.Err → String
+  | .nil => "nil" | .invalidArgument => "inval" | .notEnoughData => "nodata"
+
+def hex2 (b : Nat) : String := String.ofList [hexChar (b / 16 % 16), hexChar (b % 16)]
+
+def sOut (op : String) : Stream.Out → String
+  | .err e => s!"w {sErr e}"
+  | .read d e => s!"r {rd d} {sErr e}"
+  | .byte b e => s!"b {hex2 b} {sErr e}"
+  | .seek r e => s!"s {r} {sErr e}"
+  | .unit => op
+  | .panic _ => "panic"
+
+def sParse (ws : List String) : Option (Stream.Op × String) :=
+  match ws with
+  | ["write", p] => (parsePayload? p).map (fun p => (.write p, "w"))
+  | ["wbyte", b] => (parseNat? b).map (fun b => (.writeByte (b % 256), "w"))
+  | ["wbool", b] => (parseNat? b).map (fun b => (.writeBool (b != 0), "w"))
+  | ["wi16", d] => (parseInt? d).map (fun d => (.writeInt16 d, "w"))
+  | ["wi32", d] => (parseInt? d).map (fun d => (.writeInt32 d, "w"))
+  | ["wi64", d] => (parseInt? d).map (fun d => (.writeInt64 d, "w"))
+  | ["read", k] => (parseNat? k).map (fun k => (.read k, "r"))
+  | ["rbyte"] => some (.readByte, "b")
+  | ["tidy"] => some (.tidy, "t")
+  | ["reset"] => some (.reset, "z")
+  | ["seek", o, w] =>
+    match parseInt? o, parseInt? w with
+    | some o, some w => some (.seek o w, "s")
+    | _, _ => none
+  | _ => none
+
+def sObserve (s : Stream) : String :=
+  joinSp [rdOpt s.bytes?, toString s.len, toString s.position]
+
+def sRun (ops : List String) : String :=
+  let rec go (s : Stream) : List String → List String → List String
+    | [], acc => acc.reverse
+    | o :: rest, acc =>
+      match sParse (words o) with
+      | none => (("bad-op") :: acc).reverse
+      | some (op, tag) =>
+        let r := s.step op
+        go r.1 rest ((sOut tag r.2 ++ " / " ++ sObserve r.1) :: acc)
+  " ; ".intercalate (go Stream.init ops [])
+
+def step (_ : Unit) (line : String) : Unit × String :=
+  match line.splitOn " | " with
+  | [head, body] =>
+    let ops := (body.splitOn ";").map (fun s => s.trimAscii.toString) |>.filter (· ≠ "")
+    if ops.isEmpty then ((), "noop")
+    else if head.trimAscii.toString = "buffer" then ((), bRun ops)
+    else if head.trimAscii.toString = "stream" then ((), sRun ops)
+    else ((), "bad-op")
+  | [""] => ((), "")
+  | _ => ((), "bad-op")
 
 def main (_args : List String) : IO Unit := do
-  IO.eprintln "drv_bytes: not implemented"
+  lineLoop (← IO.getStdin) (← IO.getStdout) step ()
 
 end Got.Drv.Bytes
